@@ -143,9 +143,18 @@ fn set_after(text: &str, key: &str, charset: &str, new: &str) -> String {
 const NUM: &str = "0123456789.,";
 const DATE: &str = "0123456789-/";
 
+/// the ticker in parentheses after the company name — which may itself contain a parenthesised word
+fn ticker_paren(r: &mut Rng, sec: &str) -> String {
+    if r.chance(15) {
+        format!("(CANADA), LTD.({})", sec)
+    } else {
+        format!("({})", sec)
+    }
+}
+
 fn rsu_text(r: &mut Rng, b: &GBenefit, award: u32) -> String {
     let t = *r.pick(RSU_TEMPLATES);
-    let mut s = t.replace("(FOO)", &format!("({})", b.sec));
+    let mut s = t.replace("(FOO)", &ticker_paren(r, &b.sec));
     s = set_after(&s, "Award Number R", NUM, &award.to_string());
     s = set_after(&s, "Release Date ", DATE, &dash_date(b.acq));
     s = set_after(&s, "Shares Released ", NUM, &format!("{:.4}", b.shares));
@@ -158,7 +167,7 @@ fn rsu_text(r: &mut Rng, b: &GBenefit, award: u32) -> String {
 
 fn espp_text(r: &mut Rng, b: &GBenefit) -> String {
     let t = *r.pick(ESPP_TEMPLATES);
-    let mut s = t.replace("(FOO)", &format!("({})", b.sec));
+    let mut s = t.replace("(FOO)", &ticker_paren(r, &b.sec));
     s = set_after(&s, "\nPurchase Date ", DATE, &dash_date(b.acq));
     s = set_after(&s, "\nShares Purchased ", NUM, &format!("{:.4}", b.shares));
     s = set_after(&s, "Purchase Value per Share $", NUM, &format!("{:.6}", b.fmv));
@@ -553,6 +562,15 @@ pub fn gen_case(r: &mut Rng) -> Case {
             files.push(GFile { name: format!("{:03}_trade_conf_{}.txt", key, ti), text, benefits: vec![], trades: vec![t] });
         }
     }
+    // two confirmations with the same file name in two directories (downloads kept per half-year)
+    if r.chance(12) {
+        let idx: Vec<usize> = files.iter().enumerate().filter(|(_, f)| !f.benefits.is_empty()).map(|(i, _)| i).collect();
+        if idx.len() >= 2 {
+            files[idx[0]].name = "p1/confirmation.txt".to_string();
+            files[idx[1]].name = "p2/confirmation.txt".to_string();
+            scen.push("samename".into());
+        }
+    }
     // shuffled order on the command line
     for i in (1..files.len()).rev() {
         let j = r.below(i as u64 + 1) as usize;
@@ -630,6 +648,9 @@ pub fn run_case(id: &str, c: &Case, scratch_root: &std::path::Path, out: &mut St
     let mut paths: Vec<PathBuf> = Vec::new();
     for f in &c.files {
         let p = dir.join(&f.name);
+        if let Some(parent) = p.parent() {
+            let _ = std::fs::create_dir_all(parent);
+        }
         std::fs::write(&p, &f.text).expect("write scratch file");
         paths.push(p);
     }
